@@ -198,7 +198,7 @@ def family(ctx, fname, lens, fills, specials, leaves, lams, size, depth, maxseq,
                      size=size, depth=depth, maxseq=maxseq)
     r = ctx.tlc('ViewCheck', cfg, name='ViewCheck_' + fname, timeout=timeout)
     ctx.require_no_violation(r, 'ViewCheck_' + fname)
-    ctx.require_coverage(r, ['CheckLen', 'CheckChar', 'Visit'])
+    ctx.require_coverage(r, ['Pick', 'CheckLen', 'CheckChar', 'Visit'])
     outs = [v for v in r.printed if v[0] == 'OUT']
     if not outs:
         raise MachineryError('no completed checks exported by family ' + fname)
